@@ -244,7 +244,11 @@ func (it *Interp) step(fr *frame, instr ssa.Instruction) cont {
 		fr.env[instr] = it.binop(instr.Op, instr.X.Type(), it.get(fr, instr.X), it.get(fr, instr.Y))
 	case *ssa.Call:
 		fn, args := it.prepareCall(fr, &instr.Call)
-		fr.env[instr] = it.call(fn, args, instr)
+		if it.inInit > 0 && fr.fn.Synthetic == "package initializer" {
+			fr.env[instr] = it.initCall(fr, fn, args, instr)
+		} else {
+			fr.env[instr] = it.call(fn, args, instr)
+		}
 	case *ssa.ChangeInterface:
 		fr.env[instr] = it.get(fr, instr.X)
 	case *ssa.ChangeType:
@@ -452,6 +456,33 @@ func (it *Interp) prepareCall(fr *frame, c *ssa.CallCommon) (Val, []Val) {
 		args = append(args, it.get(fr, a))
 	}
 	return fn, args
+}
+
+// initCall: a failing initialiser expression leaves an opaque value instead of aborting the whole package init.
+func (it *Interp) initCall(fr *frame, fn Val, args []Val, instr *ssa.Call) (res Val) {
+	saved, savedDepth := it.top, it.depth
+	defer func() {
+		if r := recover(); r != nil {
+			it.top, it.depth = saved, savedDepth
+			msg := ""
+			switch e := r.(type) {
+			case engineErr:
+				msg = e.msg
+			case targetPanic:
+				msg = "panic: " + e.desc
+			default:
+				panic(r)
+			}
+			it.ex.initNotes = append(it.ex.initNotes, fmt.Sprintf("%s: initialiser abstracted (%s)", fr.fn.Pkg.Pkg.Path(), trunc(msg, 160)))
+			t := instr.Type()
+			if tu, ok := t.(*types.Tuple); ok && tu.Len() == 0 {
+				res = nil
+				return
+			}
+			res = it.opaqueOfType(t, "init")
+		}
+	}()
+	return it.call(fn, args, instr)
 }
 
 type nativeMethod struct {
